@@ -1823,8 +1823,25 @@ Slices:
                 ret = append(ret, '\\')
                 continue Slices
             case 'x':
-                var bt, _ = hex.DecodeString(string(slice[2:]))
+                // \xHH is exactly two hexadecimal digits and gives one byte.
+                // The scanner hands over up to four digits: whatever follows
+                // the first two is ordinary text ("\x01ab" is 0x01, 'a', 'b').
+                var bt []byte
+                var err = hex.ErrLength
+                if len(slice) >= 4 {
+                    bt, err = hex.DecodeString(string(slice[2:4]))
+                }
+                if err != nil {
+                    diags = append(diags, &hcl.Diagnostic{
+                        Severity: hcl.DiagError,
+                        Summary:  "Invalid escape sequence",
+                        Detail:   "The \\x escape sequence must be followed by two hexadecimal digits.",
+                        Subject:  rng.Ptr(),
+                    })
+                    break TokenType
+                }
                 ret = append(ret, bt...)
+                ret = append(ret, slice[4:]...)
                 continue Slices
             case 'u', 'U':
                 if slice[1] == 'u' && len(slice) != 6 {
